@@ -457,3 +457,312 @@ Proof.
     eapply memZ_resolved; [exact Hsorted| |exact HC|exact Ecs|exact Hp'].
     eapply Forall_impl; [|exact Hro]. cbn. intros; lia.
 Qed.
+
+(* ================================================================== *)
+(* Profiles in ORIGINAL ORDER: selection by original operator index *)
+Definition keep_if (b : bool) (e : Z * list bool) : Z * list bool :=
+  (fst e, if b then snd e else map (fun _ => false) (snd e)).
+Definition select (D : list Z) (P : list (Z * list bool)) : list (Z * list bool) :=
+  map (fun ie => keep_if (memZ (fst ie) D) (snd ie)) (enumerate P).
+Definition deselect (D : list Z) (P : list (Z * list bool)) : list (Z * list bool) :=
+  map (fun ie => keep_if (negb (memZ (fst ie) D)) (snd ie)) (enumerate P).
+
+Lemma map_false_len {A B} (f : A -> B) (l : list A) : map (fun _ => false) (map f l) = map (fun _ => false) l.
+Proof. rewrite map_map. reflexivity. Qed.
+
+Lemma moved_as_select tid cs D : forall (L : list (Z * op)) j0,
+  (forall idx p o, nth_opt L idx = Some (p, o) -> memZ p cs = memZ (j0 + Z.of_nat idx) D) ->
+  map (moved tid cs) L =
+  map (fun ie => keep_if (memZ (fst ie) D) (snd ie)) (enumerate_from j0 (map (fun ko => slots tid (snd ko)) L)).
+Proof.
+  induction L as [|[p o] L IH]; intros j0 H; [reflexivity|]. cbn [map enumerate_from]. f_equal.
+  - unfold moved, keep_if, slots. cbn [fst snd]. rewrite (H 0%nat p o eq_refl), Z.add_0_r.
+    destruct (memZ j0 D); [reflexivity|]. rewrite map_false_len. reflexivity.
+  - apply IH. intros idx p' o' Hn. rewrite (H (S idx) p' o' Hn). f_equal. lia.
+Qed.
+
+Lemma stayed_as_deselect tid cs D : forall (L : list (Z * op)) j0,
+  (forall idx p o, nth_opt L idx = Some (p, o) -> memZ p cs = memZ (j0 + Z.of_nat idx) D) ->
+  map (stayed tid cs) L =
+  map (fun ie => keep_if (negb (memZ (fst ie) D)) (snd ie)) (enumerate_from j0 (map (fun ko => slots tid (snd ko)) L)).
+Proof.
+  induction L as [|[p o] L IH]; intros j0 H; [reflexivity|]. cbn [map enumerate_from]. f_equal.
+  - unfold stayed, keep_if, slots. cbn [fst snd]. rewrite (H 0%nat p o eq_refl), Z.add_0_r.
+    destruct (memZ j0 D); cbn [negb]; [rewrite map_false_len|]; reflexivity.
+  - apply IH. intros idx p' o' Hn. rewrite (H (S idx) p' o' Hn). f_equal. lia.
+Qed.
+
+(* selecting C after removing a disjoint D changes nothing *)
+Lemma select_deselect C D : (forall c, In c C -> memZ c D = false) -> forall P,
+  select C (deselect D P) = select C P.
+Proof.
+  intros Hd P. unfold select, deselect, enumerate. generalize 0 as j0. induction P as [|e P IH]; intros j0; [reflexivity|].
+  cbn [enumerate_from map]. f_equal; [|apply IH].
+  unfold keep_if. cbn [fst snd]. destruct (memZ j0 C) eqn:EC.
+  - apply memZ_In in EC. rewrite (Hd _ EC). reflexivity.
+  - f_equal. destruct (negb (memZ j0 D)); [reflexivity|]. rewrite map_map. reflexivity.
+Qed.
+
+(* one insertion step at a state satisfying the run invariants, in original order *)
+Lemma insertion_step_profiles m0 k st i later st1 later1 rest g0 g :
+  uids_ok m0 -> ginv st ((Z.of_nat k, i) :: map (pair (Z.of_nat k)) later ++ rest) -> sinv m0 st ->
+  nth_opt (m_subgraphs m0) k = Some g0 -> nth_opt (m_subgraphs (ps_model st)) k = Some g ->
+  (i_trans i = Tr_ADD_QUANTIZE \/ i_trans i = Tr_ADD_DEQUANTIZE) ->
+  Forall (fun c => -1 <= c) (i_consumers i) ->
+  apply_single st (Z.of_nat k) i later = Ok (st1, later1) ->
+  exists g1, nth_opt (m_subgraphs (ps_model st1)) k = Some g1 /\ ntens g1 = ntens g + 1 /\
+    0 <= i_tensor i < ntens g /\
+    readers_profile (ntens g) g1 = select (i_consumers i) (readers_profile (i_tensor i) g) /\
+    readers_profile (i_tensor i) g1 = deselect (i_consumers i) (readers_profile (i_tensor i) g).
+Proof.
+  intros Hu HG [SL SK] Hg0 Hg Htr HC ES.
+  pose proof HG as [Lo La Hm Hp].
+  assert (Hk : (k < length (m_subgraphs (ps_model st)))%nat) by (eapply nth_opt_Some_lt; exact Hg).
+  destruct (nth_opt_lt_Some (ps_orig st) k ltac:(lia)) as [om Ho].
+  destruct (nth_opt_lt_Some (ps_added st) k ltac:(lia)) as [am Ha].
+  pose proof (Hm _ _ _ _ Hg Ho Ha) as [Hwfg Hsorted Hro Hra].
+  pose proof (SK _ _ _ _ Hg0 Hg Ho) as [SKlen SKorig SKother SKtens _ _].
+  destruct (Hp _ _ (or_introl eq_refl)) as [_ Hiok]. rewrite Nat2Z.id in Hiok. destruct (Hiok _ _ _ Hg Ho Ha) as (Htr_rng & _).
+  pose proof ES as ES'. rewrite apply_single_unfold in ES'.
+  rewrite (py_index_of_nat _ _ _ Ho) in ES'. cbn [bind] in ES'.
+  rewrite (py_index_of_nat _ _ _ Ha) in ES'. cbn [bind] in ES'.
+  rewrite (py_index_of_nat _ _ _ Hg) in ES'. cbn [bind] in ES'.
+  destruct (resolve om am (i_producer i)) as [producer|]; cbn [bind] in ES'; [|discriminate].
+  destruct (mapM (fun c => if Z.eqb c (-1) then Ok (-1) else py_index om c) (i_consumers i)) as [cs|] eqn:Ecs;
+    cbn [bind] in ES'; [|discriminate].
+  destruct (trans_of i (m_opcodes (ps_model st)) (m_buffers (ps_model st)) g producer cs)
+    as [[[[c' b'] g1] info]|] eqn:T; cbn [bind] in ES'; [|discriminate].
+  assert (Hcsr : Forall (fun c => c = -1 \/ 0 <= c) cs).
+  { eapply Forall_impl; [|exact (mapM_consumers _ _ _ Ecs)]. cbn. intros c [->|Hc]; [left; reflexivity|right].
+    rewrite Forall_forall in Hro. specialize (Hro _ Hc). lia. }
+  assert (Hfresh : forall o, In o (sg_ops g) -> ~ In (ntens g) (o_ins o)).
+  { intros o Ho' Hin. destruct (In_nth_opt _ _ Ho') as (kk & Hkk).
+    destruct (wf_ins g Hwfg kk o (ntens g) Hkk Hin) as [E0|E0]; unfold ntens, lenZ in *; lia. }
+  assert (Hg1 : nth_opt (m_subgraphs (ps_model st1)) k = Some g1).
+  { destruct (to_added info =? 0); inversion ES'; subst st1; cbn [ps_model set_sg m_subgraphs];
+      rewrite Nat2Z.id; apply nth_opt_set_nth_same; eapply nth_opt_Some_lt; exact Hg. }
+  assert (PN : readers_profile (ntens g) g1 = moved_profile (i_tensor i) cs g /\
+               readers_profile (i_tensor i) g1 = stayed_profile (i_tensor i) cs g /\ ntens g1 = ntens g + 1).
+  { unfold trans_of in T. destruct Htr as [E|E]; rewrite E in T.
+    - split; [eapply insert_common_new_profile; eauto|]. split; [eapply insert_common_old_profile; eauto|].
+      destruct (insert_common_other _ _ _ _ _ _ _ _ _ _ _ _ (proj1 Htr_rng) T) as (A & _). exact A.
+    - split; [eapply insert_common_new_profile; eauto|]. split; [eapply insert_common_old_profile; eauto|].
+      destruct (insert_common_other _ _ _ _ _ _ _ _ _ _ _ _ (proj1 Htr_rng) T) as (A & _). exact A. }
+  destruct PN as (PN & PO & N1).
+  exists g1. split; [exact Hg1|]. split; [exact N1|]. split; [exact Htr_rng|].
+  assert (Horig0 : forall o, In o (sg_ops g0) -> is_original o = true).
+  { intros o Ho'. unfold uids_ok in Hu. rewrite Forall_forall in Hu. specialize (Hu _ (nth_opt_In _ _ _ Hg0)).
+    rewrite Forall_forall in Hu. specialize (Hu _ Ho'). unfold is_original. destruct (Z.eqb_spec (o_uid o) UID_INSERTED); [contradiction|reflexivity]. }
+  set (L := filter (fun ko : Z * op => is_original (snd ko)) (enumerate (sg_ops g))).
+  assert (HLfst : map fst L = om).
+  { unfold L, enumerate. apply filter_enum_sorted; [exact Hsorted|]. intros p. split.
+    - intros Hp'. destruct (In_nth_opt _ _ Hp') as (j & Hj).
+      assert (Hjl : (j < length (sg_ops g0))%nat) by (rewrite <- SKlen; eapply nth_opt_Some_lt; exact Hj).
+      destruct (nth_opt_lt_Some _ _ Hjl) as [o0 Ho0].
+      destruct (SKorig _ _ _ Ho0 Hj) as (Hp0 & o & Hat & _ & Huid & _).
+      exists (Z.to_nat p), o. split; [lia|]. split; [exact Hat|].
+      unfold is_original. rewrite Huid. apply Horig0. eapply nth_opt_In; exact Ho0.
+    - intros (kk & o & -> & Hn & Po). destruct (SKother kk o Hn) as [Hin|[Hui _]]; [rewrite Z.add_0_l; exact Hin|].
+      unfold is_original in Po. rewrite Hui in Po. discriminate. }
+  assert (Hmem : forall idx p o, nth_opt L idx = Some (p, o) -> memZ p cs = memZ (0 + Z.of_nat idx) (i_consumers i)).
+  { intros idx p o Hn. rewrite Z.add_0_l.
+    assert (Hp' : nth_opt om idx = Some p) by (rewrite <- HLfst; rewrite nth_opt_map; rewrite Hn; reflexivity).
+    eapply memZ_resolved; [exact Hsorted| |exact HC|exact Ecs|exact Hp'].
+    eapply Forall_impl; [|exact Hro]. cbn. intros; lia. }
+  assert (HLprof : map (fun ko : Z * op => slots (i_tensor i) (snd ko)) L = readers_profile (i_tensor i) g).
+  { rewrite <- (map_map snd (slots (i_tensor i))). unfold L, enumerate. rewrite filter_enum_snd. reflexivity. }
+  split.
+  - rewrite PN. unfold moved_profile. fold L. rewrite (moved_as_select _ _ (i_consumers i) L 0 Hmem), HLprof. reflexivity.
+  - rewrite PO. unfold stayed_profile. fold L. rewrite (stayed_as_deselect _ _ (i_consumers i) L 0 Hmem), HLprof. reflexivity.
+Qed.
+
+(* ================================================================== *)
+(* Several insertions on one tensor: the list of tensor t is any run of in-place
+   quantizations and of insertions whose consumers are DISJOINT from those of the
+   last insertion i0 (so i0 is never re-targeted), followed by i0. *)
+Definition disj_from (C : list Z) (s : inst) : Prop := forall c, In c C -> memZ c (i_consumers s) = false.
+Definition step_ok (C : list Z) (s : inst) : Prop :=
+  0 <= i_tensor s /\ Forall (fun c => -1 <= c) (i_consumers s) /\
+  (i_trans s = Tr_QUANTIZE_TENSOR \/
+   ((i_trans s = Tr_ADD_QUANTIZE \/ i_trans s = Tr_ADD_DEQUANTIZE) /\ disj_from C s)).
+
+Lemma upd_keep_last a i0 prev np ot :
+  disj_from (i_consumers i0) prev ->
+  update_instructions (a ++ [i0]) prev np ot = update_instructions a prev np ot ++ [i0].
+Proof.
+  intros Hd. unfold update_instructions. rewrite map_app. cbn [map]. f_equal.
+  assert (E : existsb (fun c => memZ c (i_consumers prev)) (i_consumers i0) = false).
+  { destruct (existsb _ (i_consumers i0)) eqn:E; [|reflexivity]. apply existsb_exists in E. destruct E as (c & Hc & Hm).
+    rewrite (Hd c Hc) in Hm. discriminate. }
+  rewrite E. reflexivity.
+Qed.
+
+Lemma upd_step_ok C a prev np ot : 0 <= ot -> Forall (step_ok C) a -> Forall (step_ok C) (update_instructions a prev np ot).
+Proof.
+  intros Hot H. unfold update_instructions. apply Forall_forall. intros j Hj. apply in_map_iff in Hj.
+  destruct Hj as (j0 & <- & Hj0). rewrite Forall_forall in H. specialize (H _ Hj0).
+  destruct (existsb _ (i_consumers j0)); [|exact H]. destruct H as (A & B & D). split; [exact Hot|]. split; [exact B|exact D].
+Qed.
+
+Lemma apply_single_later_form st k s later st1 later1 g :
+  0 <= i_tensor s -> nth_opt (m_subgraphs (ps_model st)) k = Some g ->
+  apply_single st (Z.of_nat k) s later = Ok (st1, later1) ->
+  later1 = later \/ exists X ot, 0 <= ot /\ later1 = update_instructions later s X ot.
+Proof.
+  intros Hit Hg H. assert (Hs : 0 <= Z.of_nat k) by lia. rewrite apply_single_unfold in H.
+  destruct (py_index (ps_orig st) (Z.of_nat k)) as [om|]; cbn [bind] in H; [|discriminate].
+  destruct (py_index (ps_added st) (Z.of_nat k)) as [am|]; cbn [bind] in H; [|discriminate].
+  destruct (py_index (m_subgraphs (ps_model st)) (Z.of_nat k)) as [g0|] eqn:Eg; cbn [bind] in H; [|discriminate].
+  destruct (resolve om am (i_producer s)) as [producer|]; cbn [bind] in H; [|discriminate].
+  destruct (mapM _ (i_consumers s)) as [cs|]; cbn [bind] in H; [|discriminate].
+  destruct (trans_of s (m_opcodes (ps_model st)) (m_buffers (ps_model st)) g0 producer cs)
+    as [[[[c' b'] g1] info]|] eqn:T; cbn [bind] in H; [|discriminate].
+  destruct (trans_of_other _ _ _ _ _ _ _ _ _ _ Hit T) as (_ & _ & Hinfo).
+  destruct (to_added info =? 0) eqn:Ez; inversion H; subst; [left; reflexivity|].
+  right. destruct Hinfo as [Hz|Hto]; [rewrite Hz in Ez; discriminate|].
+  eexists _, (to_tensor info). split; [rewrite Hto; unfold ntens, lenZ; lia|reflexivity].
+Qed.
+
+Section Mixed.
+  Variable m0 : model.
+  Variable k : nat.
+  Variable g0 : subgraph.
+  Variable t : Z.
+  Variable i0 : inst.
+  Hypothesis Hu : uids_ok m0.
+  Hypothesis Hg0 : nth_opt (m_subgraphs m0) k = Some g0.
+  Let C := i_consumers i0.
+  Definition Jinv (g : subgraph) : Prop :=
+    select C (readers_profile t g) = select C (readers_profile t g0).
+
+  Lemma mixed_prefix : forall steps st g rest fuel st2,
+    Forall (step_ok C) steps ->
+    ginv st (map (pair (Z.of_nat k)) (steps ++ [i0]) ++ rest) -> sinv m0 st ->
+    nth_opt (m_subgraphs (ps_model st)) k = Some g -> 0 <= t < ntens g -> Jinv g ->
+    apply_insts st (Z.of_nat k) (steps ++ [i0]) (length steps + fuel) = Ok st2 ->
+    exists stq gq, apply_insts stq (Z.of_nat k) [i0] fuel = Ok st2 /\
+      ginv stq (map (pair (Z.of_nat k)) [i0] ++ rest) /\ sinv m0 stq /\
+      nth_opt (m_subgraphs (ps_model stq)) k = Some gq /\ 0 <= t < ntens gq /\ Jinv gq.
+  Proof.
+    intros steps. remember (length steps) as n eqn:En. revert steps En.
+    induction n as [|n IH]; intros steps En st g rest fuel st2 Hst HG HS Hg Ht HJ H.
+    - destruct steps; [|discriminate]. cbn [app length Nat.add] in *. exists st, g.
+      split; [exact H|]. split; [exact HG|]. split; [exact HS|]. split; [exact Hg|]. split; [exact Ht|exact HJ].
+    - destruct steps as [|s steps]; [discriminate|]. cbn [length] in En. injection En as En.
+      inversion Hst as [|? ? Hs Hst']; subst. destruct Hs as (Hsnn & HsC & Hkind).
+      cbn [app length Nat.add apply_insts] in H.
+      assert (Hins : is_insertion (i_trans s) = true) by (destruct Hkind as [->|[[->| ->] _]]; reflexivity).
+      rewrite Hins in H.
+      destruct (apply_single st (Z.of_nat k) s (steps ++ [i0])) as [[st1 later1]|] eqn:E; cbn [bind fst snd] in H; [|discriminate].
+      cbn [app map] in HG.
+      pose proof (apply_single_ginv _ _ _ _ _ _ _ HG E) as HG1.
+      pose proof (apply_single_sinv _ _ _ _ _ _ _ _ Hu HG HS E) as HS1.
+      assert (Hs0 : 0 <= Z.of_nat k) by lia.
+      destruct Hkind as [Hq|[Htr Hdisj]].
+      + (* in place *)
+        destruct (apply_single_inplace st (Z.of_nat k) s (steps ++ [i0]) st1 later1 k g Hs0 Hq Hg E) as (-> & g1 & Hg1 & Hops1 & Hn1).
+        assert (HJ1 : Jinv g1) by (unfold Jinv, readers_profile in *; rewrite Hops1; exact HJ).
+        apply (IH steps eq_refl st1 g1 rest fuel st2 Hst' HG1 HS1 Hg1 ltac:(lia) HJ1 H).
+      + (* an insertion that does not list any consumer of i0 *)
+        destruct (apply_single_later_form _ _ _ _ _ _ _ Hsnn Hg E) as [->|(X & ot & Hot & ->)].
+        * (* nothing was re-targeted *)
+          destruct (insertion_step_profiles m0 k st s (steps ++ [i0]) st1 (steps ++ [i0]) rest g0 g Hu HG HS Hg0 Hg Htr HsC E)
+            as (g1 & Hg1 & N1 & Hrng & _ & PO).
+          assert (HJ1 : Jinv g1).
+          { destruct (Z.eq_dec (i_tensor s) t) as [Et|Nt].
+            - unfold Jinv. rewrite <- Et at 1. rewrite PO, Et. rewrite select_deselect; [exact HJ|exact Hdisj].
+            - destruct (apply_single_profile st (Z.of_nat k) s (steps ++ [i0]) st1 (steps ++ [i0]) k g t Hs0 Hsnn Hg Ht (or_intror Nt) E)
+                as (g1' & Hg1' & P1). rewrite Hg1 in Hg1'. inversion Hg1'; subst g1'. unfold Jinv. rewrite P1. exact HJ. }
+          apply (IH steps eq_refl st1 g1 rest fuel st2 Hst' HG1 HS1 Hg1 ltac:(lia) HJ1 H).
+        * rewrite (upd_keep_last steps i0 s X ot Hdisj) in H, HG1.
+          destruct (insertion_step_profiles m0 k st s (steps ++ [i0]) st1 _ rest g0 g Hu HG HS Hg0 Hg Htr HsC E)
+            as (g1 & Hg1 & N1 & Hrng & _ & PO).
+          assert (HJ1 : Jinv g1).
+          { destruct (Z.eq_dec (i_tensor s) t) as [Et|Nt].
+            - unfold Jinv. rewrite <- Et at 1. rewrite PO, Et. rewrite select_deselect; [exact HJ|exact Hdisj].
+            - destruct (apply_single_profile st (Z.of_nat k) s (steps ++ [i0]) st1 _ k g t Hs0 Hsnn Hg Ht (or_intror Nt) E)
+                as (g1' & Hg1' & P1). rewrite Hg1 in Hg1'. inversion Hg1'; subst g1'. unfold Jinv. rewrite P1. exact HJ. }
+          assert (Hlen : length steps = length (update_instructions steps s X ot)) by (unfold update_instructions; rewrite map_length; reflexivity).
+          apply (IH (update_instructions steps s X ot) Hlen st1 g1 rest fuel st2
+                    (upd_step_ok C steps s X ot Hot Hst') HG1 HS1 Hg1 ltac:(lia) HJ1 H).
+  Qed.
+End Mixed.
+
+Lemma select_orig t C (ops0 : list op) : forall j0,
+  map (fun ie => keep_if (memZ (fst ie) C) (snd ie)) (enumerate_from j0 (map (slots t) ops0)) =
+  map (moved t C) (enumerate_from j0 ops0).
+Proof.
+  induction ops0 as [|o l IH]; intros j0; [reflexivity|]. cbn [map enumerate_from]. f_equal; [|apply IH].
+  unfold keep_if, moved, slots. cbn [fst snd]. destruct (memZ j0 C); [reflexivity|]. rewrite map_map. reflexivity.
+Qed.
+
+Theorem insertion_after_steps_readers m0 pre ti0 post m' k g0 steps i0 :
+  Forall wf_sg (m_subgraphs m0) -> uids_ok m0 ->
+  (forall ti i, In ti (pre ++ ti0 :: post) -> In i (ti_insts ti) -> sane m0 (ti_sg ti) i) ->
+  ids_ok (pre ++ ti0 :: post) ->
+  nth_opt (m_subgraphs m0) k = Some g0 ->
+  ti_sg ti0 = Z.of_nat k -> ti_insts ti0 = steps ++ [i0] ->
+  Forall (step_ok (i_consumers i0)) steps ->
+  (i_trans i0 = Tr_ADD_QUANTIZE \/ i_trans i0 = Tr_ADD_DEQUANTIZE) ->
+  Forall (fun c => -1 <= c) (i_consumers i0) ->
+  never_names k (i_tensor i0) pre ->
+  transform_graph m0 (pre ++ ti0 :: post) = Ok m' ->
+  exists x' g', nth_opt (m_subgraphs m') k = Some g' /\ ntens g0 <= x' /\
+                readers_profile x' g' = moved_profile (i_tensor i0) (i_consumers i0) g0.
+Proof.
+  intros Hwf Hu Hsane Hids Hg0 Hsg Hins Hsteps Htr HC Hnn H.
+  set (t := i_tensor i0) in *. set (C := i_consumers i0) in *.
+  unfold transform_graph in H.
+  match type of H with bind ?x _ = _ => destruct x as [st3|] eqn:E end; cbn [bind] in H; [|discriminate].
+  inversion H; subst m'; clear H.
+  fold (run_all (pre ++ ti0 :: post) (init_pstate m0)) in E. unfold run_all in E. rewrite foldM_app in E.
+  fold (run_all pre (init_pstate m0)) in E.
+  destruct (run_all pre (init_pstate m0)) as [st0|] eqn:E1; cbn [bind] in E; [|discriminate].
+  cbn [foldM] in E. rewrite Hsg, Hins in E.
+  destruct (apply_insts st0 (Z.of_nat k) (steps ++ [i0]) (length (steps ++ [i0]))) as [st2|] eqn:E2; cbn [bind] in E; [|discriminate].
+  fold (run_all post st2) in E.
+  pose proof (init_ginv m0 _ Hwf Hsane) as HG0. rewrite pend_of_app in HG0.
+  destruct (run_both_rest m0 Hu pre _ _ _ HG0 (init_sinv _ Hu) E1) as [HGp HSp].
+  destruct (ids_ok_app _ _ Hids) as [Hids_pre Hids2]. inversion Hids2 as [|? ? _ Hids_post]; subst.
+  assert (Hk0 : (k < length (m_subgraphs (ps_model st0)))%nat) by (destruct HSp as [SL _]; rewrite SL; eapply nth_opt_Some_lt; exact Hg0).
+  destruct (nth_opt_lt_Some (m_subgraphs (ps_model st0)) k Hk0) as [gp Hgp].
+  assert (Ht0 : 0 <= t < ntens g0).
+  { assert (Hin0 : In ti0 (pre ++ ti0 :: post)) by (apply in_app_iff; right; left; reflexivity).
+    assert (Hi0 : In i0 (ti_insts ti0)) by (rewrite Hins; apply in_app_iff; right; left; reflexivity).
+    destruct (Hsane ti0 i0 Hin0 Hi0) as [_ Hs2]. rewrite Hsg, Nat2Z.id in Hs2. destruct (Hs2 _ Hg0) as (R & _). exact R. }
+  destruct (run_all_profile k t pre (init_pstate m0) st0 g0 Hids_pre Hnn Hg0 Ht0 E1) as (g_ & Hg_ & Ptp & Hnp).
+  rewrite Hgp in Hg_. inversion Hg_; subst g_.
+  cbn [pend_of flat_map] in HGp. rewrite Hsg, Hins in HGp.
+  rewrite app_length in E2. cbn [length] in E2.
+  assert (HJp : Jinv g0 t i0 gp) by (unfold Jinv; rewrite Ptp; reflexivity).
+  destruct (mixed_prefix m0 k g0 t i0 Hu Hg0 steps st0 gp (pend_of post) 1 st2 Hsteps HGp HSp Hgp ltac:(lia) HJp E2)
+    as (stq & gq & EA & HGq & HSq & Hgq & Htq & HJq).
+  cbn [apply_insts] in EA.
+  assert (Hisins : is_insertion (i_trans i0) = true) by (destruct Htr as [-> | ->]; reflexivity).
+  rewrite Hisins in EA.
+  destruct (apply_single stq (Z.of_nat k) i0 []) as [[st1 later1]|] eqn:ES; cbn [bind fst snd] in EA; [|discriminate].
+  pose proof (apply_single_nil _ _ _ _ _ ES) as ->. cbn [apply_insts] in EA. inversion EA; subst st2. clear EA.
+  cbn [map app] in HGq.
+  destruct (insertion_step_profiles m0 k stq i0 [] st1 [] (pend_of post) g0 gq Hu HGq HSq Hg0 Hgq Htr HC ES)
+    as (g1 & Hg1 & N1 & _ & PN & _).
+  assert (Hnn_post : never_names k (ntens gq) post).
+  { intros ti i Hti Hsgi Hi _ Heq.
+    assert (Hin : In ti (pre ++ ti0 :: post)) by (apply in_app_iff; right; right; exact Hti).
+    destruct (Hsane ti i Hin Hi) as [_ Hs2]. rewrite Hsgi, Nat2Z.id in Hs2. destruct (Hs2 _ Hg0) as (R & _).
+    destruct HSq as [_ SKq]. assert (Hkq : (k < length (m_subgraphs (ps_model stq)))%nat) by (eapply nth_opt_Some_lt; exact Hgq).
+    destruct HGq as [Loq _ _ _]. destruct (nth_opt_lt_Some (ps_orig stq) k ltac:(lia)) as [omq Hoq].
+    destruct (SKq _ _ _ _ Hg0 Hgq Hoq) as [_ _ _ [T _] _ _]. lia. }
+  destruct (run_all_profile k (ntens gq) post st1 st3 g1 Hids_post Hnn_post Hg1 ltac:(lia) E) as (g3 & Hg3 & P3 & _).
+  exists (ntens gq), g3. split; [exact Hg3|]. split.
+  { destruct HSq as [_ SKq]. assert (Hkq : (k < length (m_subgraphs (ps_model stq)))%nat) by (eapply nth_opt_Some_lt; exact Hgq).
+    destruct HGq as [Loq _ _ _]. destruct (nth_opt_lt_Some (ps_orig stq) k ltac:(lia)) as [omq Hoq].
+    destruct (SKq _ _ _ _ Hg0 Hgq Hoq) as [_ _ _ [T _] _ _]. exact T. }
+  rewrite P3, PN. fold t C. unfold Jinv in HJq. fold C in HJq. rewrite HJq.
+  assert (Horig0 : forall o, In o (sg_ops g0) -> is_original o = true).
+  { intros o Ho'. unfold uids_ok in Hu. rewrite Forall_forall in Hu. specialize (Hu _ (nth_opt_In _ _ _ Hg0)).
+    rewrite Forall_forall in Hu. specialize (Hu _ Ho'). unfold is_original. destruct (Z.eqb_spec (o_uid o) UID_INSERTED); [contradiction|reflexivity]. }
+  unfold select, moved_profile, readers_profile, enumerate. rewrite (filter_all is_original _ Horig0).
+  rewrite (filter_all (fun ko : Z * op => is_original (snd ko)) (enumerate_from 0 (sg_ops g0))).
+  2:{ intros [j o] Hjo. cbn [snd]. apply Horig0. destruct (in_enum_all' _ _ _ _ Hjo) as (jj & _ & Hn). eapply nth_opt_In; exact Hn. }
+  apply select_orig.
+Qed.
